@@ -27,6 +27,8 @@ class Opts:
         self.open_leaves = 0.0     # probability that a leaf fact's argument is a structure with fresh variables
         self.deep = False
         self.bag_shapes = 0.0      # probability that the bag of a generated findall/3 is not a plain variable (see bag_shape)
+        self.churn = 0.0           # probability that the clauses of a predicate reuse the same variable names in changing roles (see gen_program)
+        self.contdup = 0.0         # probability that a clause body has the shape  (A ; B), K  /  (C -> T ; E), K  (see contdup_body)
         self.__dict__.update(kw)
 
 def V(n): return ['var', n]
@@ -235,13 +237,30 @@ def gen_program(rng, o):
     all_callees = preds + leaves + rec
     for i, (name, ar) in enumerate(preds):
         callees = preds[i + 1:] + leaves + leaves + rec
-        for _ in range(rng.choice([1, 1, 2, 2, 3, 4])):
+        ncl = rng.choice([1, 1, 2, 2, 3, 4])
+        # "role churn": all clauses of the predicate use the same variable name for the same argument position, but in changing roles -
+        # plain argument (the compiler merely names the argument), nested in a structure, repeated in the head, only in the body,
+        # absent - so that anything the compiler keeps from one clause of a function to the next is visible
+        sig = None
+        if o.churn and ar > 0 and rng.random() < o.churn:
+            ncl = rng.choice([3, 3, 4, 5])
+            sig = rng.sample(VARS, ar) if rng.random() < 0.7 else [rng.choice(VARS[:2]) for _ in range(ar)]
+        for ci in range(ncl):
             nv = rng.randrange(0, len(VARS) + 1)
             vars_ = VARS[:nv]
+            if sig is not None:
+                vars_ = list(dict.fromkeys(sig + vars_[:2]))
             head = []
-            for _ in range(ar):
+            for hk in range(ar):
                 q = rng.random()
-                if vars_ and q < 0.5:
+                if sig is not None:
+                    if q < 0.45: head.append(V(sig[hk]))
+                    elif q < 0.60: head.append(rng.choice([F('f', V(sig[hk])), ['list', [V(sig[hk])]], ['pair', V(sig[hk]), V('_')], F('g', V(sig[hk]), V(sig[hk]))]))
+                    elif q < 0.70: head.append(V(rng.choice(sig)))
+                    elif q < 0.82: head.append(rand_atom(rng, o))
+                    elif q < 0.88: head.append(V('_'))
+                    else: head.append(rand_sterm(rng, o, vars_, 2))
+                elif vars_ and q < 0.5:
                     head.append(V(rng.choice(vars_)))
                 elif q < 0.58:
                     head.append(V('_'))
@@ -249,6 +268,14 @@ def gen_program(rng, o):
                     head.append(rand_sterm(rng, o, vars_, 2 if not o.deep else 4))
             size = rng.choice([0, 1, 1, 2, 2, 3, 4, 5] if not o.deep else [1, 2, 3, 5, 7, 9])
             body = ['true'] if size == 0 else rand_body(rng, o, callees, vars_, size)
+            if o.contdup and rng.random() < o.contdup:
+                hv = list(dict.fromkeys(a[1] for a in head if a[0] == 'var' and a[1] != '_'))
+                body = contdup_body(rng, o, callees, (hv + hv + vars_[:2]) or ['W'])
+                if ci == ncl - 1:
+                    # a following clause, so that a break / return that wrongly leaves the clause is visible
+                    clauses.append([name, head, body])
+                    head = [rng.choice([V('_'), A('after'), V('X')]) for _ in range(ar)]
+                    body = ['true']
             if o.forwarders and callees and rng.random() < o.forwarders:
                 cn, car = rng.choice(callees)
                 if cn not in ('mem', 'app', 'len'):
@@ -715,4 +742,455 @@ def gen_meta_program(rng):
             if t1[0] == 'var' and t2[0] != 'var': t2 = subst_var(t2, t1[1], 'Q2')
             if t2[0] == 'var' and t1[0] != 'var': t1 = subst_var(t1, t2[1], 'Q2')
             queries.append([rng.choice(['=', '\\=']), [t1, t2]])
+    return {'clauses': clauses, 'queries': queries}
+
+# ------------------------------------------------------------------ continuation duplication
+# compile_body distributes the continuation of a disjunction / if-then-else over the alternatives:
+#   (A ; B), K  =>  A, K ; B, K          (C -> T ; E), K  =>  C -> (T, K) ; E, K         (C -> T), K  =>  (C -> T ; fail), K
+# so K is compiled once per alternative (from the same AST node, with different label counters and at different
+# nesting).  The bodies below put every interesting construct in the position K, with all alternatives reachable.
+
+def _tag(rng, vars_, tag):
+    """V = tag: marks the path an answer took"""
+    return ['call', '=', [V(rng.choice(vars_)), A(tag)]]
+
+def _succ_goal(rng, o, callees, vars_):
+    """a goal that usually has answers: a call of a leaf predicate, true, or a marker"""
+    r = rng.random()
+    leaves = [c for c in callees if c[0].startswith('q')]
+    if leaves and r < 0.55:
+        name, ar = rng.choice(leaves)
+        return ['call', name, [V(rng.choice(vars_)) for _ in range(ar)]]
+    if r < 0.7:
+        return ['true']
+    return _tag(rng, vars_, rng.choice(['m1', 'm2', 'm3']))
+
+def _fail_goal(rng, o, callees, vars_):
+    """a goal that usually (not always) fails"""
+    r = rng.random()
+    if r < 0.45:
+        return ['fail']
+    if r < 0.7:
+        return ['call', '=', [A('no'), A('yes')]]
+    if r < 0.85:
+        return ['call', '\\=', [V(rng.choice(vars_)), V(rng.choice(vars_))]]
+    return _tag(rng, vars_, 'late')       # fails iff the variable already carries another marker
+
+def cut_condition(rng, o, callees, vars_):
+    """a condition (for -> or \\+) that contains a cut of its own: the cut is reached for some solutions of the goals in
+    front of it, and what follows the cut fails or succeeds"""
+    c = _succ_goal(rng, o, callees, vars_)
+    f = _fail_goal(rng, o, callees, vars_) if rng.random() < 0.7 else _succ_goal(rng, o, callees, vars_)
+    d = _succ_goal(rng, o, callees, vars_)
+    r = rng.random()
+    if r < 0.30: return ['and', c, ['and', ['cut'], f]]                          # c, !, f
+    if r < 0.45: return ['or', ['and', c, ['and', ['cut'], f]], d]               # ( c, !, f ; d )
+    if r < 0.55: return ['and', ['cut'], f]                                      # !, f
+    if r < 0.65: return ['or', f, ['and', ['cut'], ['and', c, f]]]               # ( f ; !, c, f )
+    if r < 0.75: return ['and', ['or', ['if', c, ['cut']], d], f]                # ( c -> ! ; d ), f      (cut in a then-branch of the condition)
+    if r < 0.85: return ['and', c, ['and', ['or', ['cut'], d], f]]               # c, ( ! ; d ), f
+    if r < 0.92: return ['and', c, ['and', ['cut'], ['and', f, ['cut']]]]        # c, !, f, !
+    return ['and', ['and', c, ['cut']], f]                                       # (c, !), f              (left-nested)
+
+def filter_condition(rng, o, callees, vars_):
+    """a condition of the form  Gen, Nested [, Rest]:  a goal with several answers, then a \\+ / if-then-else that tests the answer, so
+    that the nested construct commits (or not) differently for successive answers of Gen while the enclosing condition is still undecided"""
+    leaves = [c for c in callees if c[0].startswith('q')] or [('q0', 1)]
+    name, ar = rng.choice(leaves)
+    x = rng.choice(vars_)
+    gen = ['call', name, [V(x)] * ar]
+    sol = lambda: A('%s_%d' % (name, rng.randrange(0, 3)))
+    test = lambda: ['call', rng.choice(['=', '=', '\\=']), [V(x), sol()]]
+    r = rng.random()
+    if r < 0.25: nested = ['not', test()]
+    elif r < 0.35: nested = ['not', ['not', test()]]
+    elif r < 0.55: nested = ['or', ['if', test(), rng.choice([['fail'], ['true'], test()])], rng.choice([['true'], ['fail'], test()])]
+    elif r < 0.65: nested = ['if', test(), rng.choice([['true'], test()])]
+    elif r < 0.80: nested = ['not', ['and', test(), rng.choice([['true'], ['cut'] if o.opaque_cut else ['true'], ['fail']])]]
+    else: nested = ['or', ['if', ['not', test()], ['true']], test()]
+    q = rng.random()
+    if q < 0.6: return ['and', gen, nested]
+    if q < 0.8: return ['and', gen, ['and', nested, test()]]
+    if q < 0.9: return ['and', ['and', gen, nested], rng.choice([['true'], test()])]
+    y = rng.choice(vars_)
+    return ['and', gen, ['and', ['call', name, [V(y)] * ar], ['and', nested, ['call', '\\=', [V(x), V(y)]]]]]
+
+def any_condition(rng, o, callees, vars_):
+    return cut_condition(rng, o, callees, vars_) if (o.opaque_cut and rng.random() < 0.6) else filter_condition(rng, o, callees, vars_)
+
+def continuation_goal(rng, o, callees, vars_, depth=0):
+    """K: the goal after a disjunction / if-then-else"""
+    r = rng.random()
+    t = lambda: _tag(rng, vars_, rng.choice(['kt', 'ke', 'k']))
+    if r < 0.22:
+        return ['not', any_condition(rng, o, callees, vars_)]
+    if r < 0.44:
+        return ['or', ['if', any_condition(rng, o, callees, vars_), t()], t()]
+    if r < 0.52:
+        return ['if', any_condition(rng, o, callees, vars_), t()]
+    if r < 0.58:
+        return ['not', ['not', any_condition(rng, o, callees, vars_)]]
+    if r < 0.64:
+        return ['cut'] if o.cut else ['true']
+    if r < 0.72:
+        return ['or', _succ_goal(rng, o, callees, vars_), t()]
+    if r < 0.80:
+        return ['or', ['if', _succ_goal(rng, o, callees, vars_), t()], t()]
+    if r < 0.86:
+        return ['not', _succ_goal(rng, o, callees, vars_) if rng.random() < 0.5 else _fail_goal(rng, o, callees, vars_)]
+    if r < 0.93 and depth < 1:
+        # K is itself a construct with a continuation
+        return ['and', duplicating_goal(rng, o, callees, vars_, depth + 1), continuation_goal(rng, o, callees, vars_, depth + 1)]
+    return rand_body(rng, o, callees, vars_, rng.randrange(1, 4), False, False)
+
+def duplicating_goal(rng, o, callees, vars_, depth=0):
+    """D: a goal whose continuation compile_body duplicates; every alternative is reachable (for some answers at least)"""
+    alt = lambda tag: (_succ_goal(rng, o, callees, vars_) if rng.random() < 0.5 else
+                       ['and', _succ_goal(rng, o, callees, vars_), _tag(rng, vars_, tag)] if rng.random() < 0.7 else
+                       _fail_goal(rng, o, callees, vars_))
+    r = rng.random()
+    if r < 0.30:
+        return ['or', alt('d1'), alt('d2')]
+    if r < 0.40:
+        return ['or', alt('d1'), ['or', alt('d2'), alt('d3')]] if rng.random() < 0.5 else ['or', ['or', alt('d1'), alt('d2')], alt('d3')]
+    if r < 0.60:
+        cond = _succ_goal(rng, o, callees, vars_) if rng.random() < 0.5 else _fail_goal(rng, o, callees, vars_)
+        return ['or', ['if', cond, alt('dt')], alt('de')]
+    if r < 0.66:
+        return ['if', _succ_goal(rng, o, callees, vars_), alt('dt')]
+    if r < 0.76:
+        # else-if chain  ( C1 -> T1 ; C2 -> T2 ; E ): an if-then-else in a non-first position of the ; chain, whose condition decides
+        c1 = _fail_goal(rng, o, callees, vars_) if rng.random() < 0.6 else _succ_goal(rng, o, callees, vars_)
+        c2 = _succ_goal(rng, o, callees, vars_) if rng.random() < 0.7 else _fail_goal(rng, o, callees, vars_)
+        first = ['if', c1, alt('dt1')] if rng.random() < 0.7 else alt('d1')
+        if rng.random() < 0.3:
+            # explicitly parenthesised on the left:  ( ( C -> T ; E ) ; F )  is not  ( C -> T ; ( E ; F ) )
+            return ['or', ['or', ['if', c2, alt('dt2')], alt('de')], alt('d3')]
+        return ['or', first, ['or', ['if', c2, alt('dt2')], alt('de')]]
+    if r < 0.86 and depth < 1:
+        # an if-then-else in a non-first position of a ; chain, or nested in an alternative
+        return ['or', alt('d1'), duplicating_goal(rng, o, callees, vars_, depth + 1)]
+    if r < 0.93:
+        cc = any_condition(rng, o, callees, vars_)
+        return ['or', ['if', cc, alt('dt')], alt('de')]
+    return ['or', ['if', ['or', _fail_goal(rng, o, callees, vars_), _succ_goal(rng, o, callees, vars_)], alt('dt')], alt('de')]
+
+def contdup_body(rng, o, callees, vars_):
+    if rng.random() < 0.15:
+        # no continuation at all: a construct whose condition is  Gen, Nested
+        c = filter_condition(rng, o, callees, vars_)
+        w = rng.random()
+        return (['not', c] if w < 0.3 else ['if', c, _tag(rng, vars_, 'kt')] if w < 0.4 else ['or', ['if', c, _tag(rng, vars_, 'kt')], _tag(rng, vars_, 'ke')])
+    d = duplicating_goal(rng, o, callees, vars_)
+    k = continuation_goal(rng, o, callees, vars_)
+    r = rng.random()
+    if r < 0.35:
+        return ['and', d, k]                                                     # D, K
+    if r < 0.55:
+        return ['and', d, ['and', k, _succ_goal(rng, o, callees, vars_)]]        # D, K, G
+    if r < 0.70:
+        return ['and', ['and', d, k], _succ_goal(rng, o, callees, vars_)]        # (D, K), G         left-nested
+    if r < 0.85:
+        return ['and', _succ_goal(rng, o, callees, vars_), ['and', d, k]]        # G, D, K           D re-entered per answer of G
+    return ['and', ['and', _succ_goal(rng, o, callees, vars_), d], k]            # (G, D), K
+
+def exhaustive_contdup_bodies(thorough=False):
+    """ALL bodies  D, K  with
+       D in { (L ; L), (L -> L ; L), (L -> L) }  over leaves L with 0 / [1 /] 2 solutions (the i-th leaf uses the i-th head variable),
+       K in { \\+ C, (C -> C_ = t ; C_ = e), (C -> C_ = t) }  with a condition C that has a cut of its own:
+            C in { (c, !, f), (c, !, f ; true), (c ; !, f) },  c in {true, [q1,] q2},  f in {fail, true [, q0]}."""
+    VN = ['A', 'B', 'C', 'D']
+    lv = ['q0', 'q1', 'q2'] if thorough else ['q0', 'q2']
+    L = lambda i, q: ['call', q, [V(VN[i])]]
+    ds = []
+    for a in lv:
+        for b in lv:
+            ds.append(['or', L(0, a), L(1, b)])
+            ds.append(['if', L(0, a), L(1, b)])
+            for c in lv:
+                ds.append(['or', ['if', L(0, a), L(1, b)], L(2, c)])
+    cs = [['true'], ['call', 'q2', [V('D')]]] + ([['call', 'q1', [V('D')]]] if thorough else [])
+    fs = [['fail'], ['true']] + ([['call', 'q0', [V('D')]]] if thorough else [])
+    conds = []
+    for c in cs:
+        for f in fs:
+            conds.append(['and', c, ['and', ['cut'], f]])
+            conds.append(['or', ['and', c, ['and', ['cut'], f]], ['true']])
+            conds.append(['or', c, ['and', ['cut'], f]])
+    t = lambda x: ['call', '=', [V('D'), A(x)]]
+    ks = []
+    for c in conds:
+        ks.append(['not', c])
+        ks.append(['or', ['if', c, t('kt')], t('ke')])
+        ks.append(['if', c, t('kt')])
+    for d in ds:
+        for k in ks:
+            yield ['and', d, k]
+
+def exhaustive_contdup_cases(thorough=False):
+    """p(A,B,C,D) :- (D, K), true.  plus a second clause (a wrongly escaping break or return loses it)"""
+    for b in exhaustive_contdup_bodies(thorough):
+        clauses = [['p', [V('A'), V('B'), V('C'), V('D')], ['and', b, ['true']]], ['p', [A('second'), A('clause'), V('_'), V('_')], ['true']]] + EXH_FACTS
+        yield {'clauses': copy.deepcopy(clauses), 'queries': [['p', [V('Q0'), V('Q1'), V('Q2'), V('Q3')]]], 'origin': 'exhaustive-contdup'}
+
+# ------------------------------------------------------------------ adversarial identifiers
+# The compiler invents names: x<N> for the N-th `_` of the source (1-based, counted over the whole text), V_<name> for the
+# Python local of a Prolog variable, arg<i> for the i-th parameter, l<k> for the loop variable at nesting k, cutIf<k> for
+# the k-th breakable block, doBreak, <name>_<arity> for a predicate's function.  A source identifier that looks like one
+# of these - or like what a slightly different mangling scheme would produce - must still be an identifier of its own.
+# adversarial_program renames the variables, atoms and predicates of a generated program into such identifiers, the
+# numbers in them being taken from the counters a compiler could use at that place (index of the clause's anonymous
+# variables in the whole text or in the clause, 0- or 1-based; argument positions; small numbers).
+
+ADV_VAR_TEMPLATES = ['_%d', '_%d', '_%d', '__%d', '_G%d', '_x%d', '_X%d', 'X%d', 'X_%d', '_%d_', 'A%d', 'Arg%d', '_arg%d', 'V_%d', 'V_x%d',
+                     'V__%d', '_V%d', 'L%d', '_l%d', 'CutIf%d', '_cutIf%d', 'Anon%d', '_anon%d', '_A%d', 'X%d_', '_0%d']
+ADV_VAR_FIXED = ['V_X', 'V_V_X', '_V_X', 'V_', 'V__', '_x', '_X', '__', '___', '__X', '_X_', 'Xx', 'XX', 'X_', 'X__', 'DoBreak', '_doBreak', 'ATOM_NIL',
+                 'True', 'None', 'Self', '_self', 'Yp', '_yp', 'Query', 'Unify', 'Variable', 'L', 'Arg', '_arg', 'A_1', 'X_x1', '_Q0']
+ADV_PRED_NAMES = ['x1', 'x2', 'x0', 'arg1', 'arg2', 'l1', 'l2', 'doBreak', 'cutIf1', 'cutIf2', 'v_X', 'v_x1', 'p_1', 'p_0', 'p_n', 'p0_1', 'p0_n', 'q0_1', 'q_1_1',
+                  'p0_', 'p_', 'pass', 'def', 'for', 'in', 'if', 'not', 'yield', 'return', 'break', 'none', 'self', 'yp', 'main', 'x', 'l', 'arg', 'p__1', 'p1_0_1']
+ADV_ATOMS = ['x1', 'x2', 'arg1', 'l1', 'doBreak', 'cutIf1', 'v_X', 'p0', 'q0', 'p0_1', 'none', 'nil', 'a_1', 'aA', 'a_', 'false', 'atom', 'variable', 'x']
+
+def _term_anons(t):
+    k = t[0]
+    if k == 'var': return 1 if t[1] == '_' else 0
+    if k == 'fun': return sum(_term_anons(a) for a in t[2])
+    if k == 'list': return sum(_term_anons(a) for a in t[1])
+    if k == 'pair': return _term_anons(t[1]) + _term_anons(t[2])
+    return 0
+
+def _body_terms(b):
+    k = b[0]
+    if k == 'call':
+        for a in b[2]: yield a
+    elif k in ('and', 'or', 'if'):
+        for x in _body_terms(b[1]): yield x
+        for x in _body_terms(b[2]): yield x
+    elif k == 'not':
+        for x in _body_terms(b[1]): yield x
+
+def _term_vars(t, acc):
+    k = t[0]
+    if k == 'var':
+        if t[1] != '_' and t[1] not in acc: acc.append(t[1])
+    elif k == 'fun':
+        for a in t[2]: _term_vars(a, acc)
+    elif k == 'list':
+        for a in t[1]: _term_vars(a, acc)
+    elif k == 'pair':
+        _term_vars(t[1], acc); _term_vars(t[2], acc)
+    return acc
+
+def map_term(t, fv, fa):
+    """t with every variable node v replaced by fv(v) and every atom node replaced by fa(atom)"""
+    k = t[0]
+    if k == 'var': return fv(t)
+    if k == 'atom': return fa(t)
+    if k == 'fun': return ['fun', t[1], [map_term(a, fv, fa) for a in t[2]]]
+    if k == 'list': return ['list', [map_term(a, fv, fa) for a in t[1]]]
+    if k == 'pair':
+        tl = map_term(t[2], fv, fa)
+        return ['pair', map_term(t[1], fv, fa), tl if tl[0] in ('var', 'pair') else t[2]]      # the grammar wants a variable after |
+    return t
+
+def map_body(b, ft, fp):
+    """b with every argument term t replaced by ft(t) and every called predicate name replaced by fp(name, arity)"""
+    k = b[0]
+    if k == 'call': return ['call', fp(b[1], len(b[2])), [ft(a) for a in b[2]]]
+    if k in ('and', 'or', 'if'): return [k, map_body(b[1], ft, fp), map_body(b[2], ft, fp)]
+    if k == 'not': return ['not', map_body(b[1], ft, fp)]
+    return b
+
+def clause_anon_counts(clauses):
+    return [sum(_term_anons(a) for a in args) + sum(_term_anons(t) for t in _body_terms(body)) for _, args, body in clauses]
+
+def adversarial_variables(rng, clauses, p_clause=0.7, p_var=0.7, p_anon=0.25):
+    """per clause: some constants become `_`, and the named variables are renamed (injectively) into adversarial identifiers"""
+    out = []
+    # first pass: sprinkle anonymous variables (only in clauses that have named variables: leaf facts keep identifying the path)
+    tmp = []
+    for name, args, body in clauses:
+        vs = []
+        for a in args: _term_vars(a, vs)
+        for t in _body_terms(body): _term_vars(t, vs)
+        if vs and rng.random() < p_clause:
+            q = rng.choice([0.0, p_anon, p_anon, 2 * p_anon])
+            fa = lambda t: V('_') if rng.random() < q else t
+            idv = lambda t: t
+            args = [map_term(a, idv, fa) for a in args]
+            body = map_body(body, lambda t: map_term(t, idv, fa), lambda f, n: f)
+            tmp.append([name, args, body, vs, True])
+        else:
+            tmp.append([name, args, body, vs, False])
+    counts = clause_anon_counts([c[:3] for c in tmp])
+    total = sum(counts)
+    start = 0
+    gm = {} if rng.random() < 0.4 else None      # one renaming for the whole program (names keep recurring across clauses) or one per clause
+    for (name, args, body, vs, chosen), n in zip(tmp, counts):
+        if chosen:
+            near = set()
+            for g in range(start, start + n):
+                near.update([g, g + 1])                  # index in the whole text, 0- and 1-based
+            for j in range(n):
+                near.update([j, j + 1])                  # index in the clause
+            far = set(range(0, 4)) | set(range(1, len(args) + 1)) | {total, total + 1, len(vs)}
+            m = {}
+            used = set(vs)
+            for v in vs:
+                if gm is not None and v in gm:
+                    if gm[v] not in used:
+                        used.add(gm[v]); m[v] = gm[v]
+                    continue
+                if rng.random() >= p_var:
+                    continue
+                for _ in range(8):
+                    r = rng.random()
+                    if r < 0.6:
+                        pool = sorted(near) if near and rng.random() < 0.7 else sorted(far)
+                        # `_<N>` and `_G<N>` are how Prolog systems themselves write unnamed variables: the most plausible scheme, tried most often
+                        q = rng.random()
+                        nm = ('_%d' if q < 0.3 else '_G%d' if q < 0.4 else rng.choice(ADV_VAR_TEMPLATES)) % rng.choice(pool)
+                    elif r < 0.8:
+                        nm = rng.choice(ADV_VAR_FIXED)
+                    else:
+                        # another variable of the clause in a different case / with underscores in front or behind
+                        w = rng.choice(vs)
+                        nm = rng.choice(['_' + w, '__' + w, w + '_', w + w.lower(), w + w, 'V_' + w, w[0] + '_' + w[1:], w.upper(), w + '1', w + '_1'])
+                    if nm not in used and nm != '_' and (gm is None or nm not in gm.values()):
+                        used.add(nm); m[v] = nm
+                        if gm is not None: gm[v] = nm
+                        break
+            fv = lambda t: V(m.get(t[1], t[1]))
+            ida = lambda t: t
+            args = [map_term(a, fv, ida) for a in args]
+            body = map_body(body, lambda t: map_term(t, fv, ida), lambda f, k: f)
+        out.append([name, args, body])
+        start += n
+    return out
+
+def adversarial_symbols(rng, prog, p_pred=0.5, p_atom=0.4):
+    """rename predicates (consistently in heads, calls, queries and goal terms handed to call/once/findall) and atoms into identifiers
+    that look like names of the generated code; the builtins and the control-flow of the program are untouched"""
+    clauses, queries = prog['clauses'], prog['queries']
+    keep = {'=', '\\=', 'call', 'once', 'findall', 'mem', 'app', 'len'}
+    names = list(dict.fromkeys(c[0] for c in clauses))
+    pm = {}
+    used = set(names) | keep
+    for nm in names:
+        if nm not in keep and rng.random() < p_pred:
+            new = rng.choice(ADV_PRED_NAMES)
+            if new not in used:
+                used.add(new); pm[nm] = new
+    am = {}
+    atoms = set()
+    def collect(t):
+        if t[0] == 'atom': atoms.add(t[1])
+        return t
+    for _, args, body in clauses:
+        for a in args: map_term(a, lambda t: t, collect)
+        for t in _body_terms(body): map_term(t, lambda t: t, collect)
+    useda = set(atoms) | {'[]'}
+    for a in sorted(atoms):
+        if a != '[]' and a not in used and rng.random() < p_atom:
+            new = rng.choice(ADV_ATOMS)
+            if new not in useda and new not in used:
+                useda.add(new); am[a] = new
+    fa = lambda t: A(pm[t[1]]) if t[1] in pm else A(am.get(t[1], t[1]))      # an atom may be a goal handed to a meta-call
+    def ft(t):
+        # a compound term may be a goal handed to a meta-call: its functor follows the predicate renaming
+        k = t[0]
+        if k == 'fun': return ['fun', pm.get(t[1], t[1]), [ft(a) for a in t[2]]]
+        if k == 'list': return ['list', [ft(a) for a in t[1]]]
+        if k == 'pair': return ['pair', ft(t[1]), ft(t[2])]
+        if k == 'atom': return fa(t)
+        return t
+    fp = lambda f, n: pm.get(f, f)
+    cl2 = [[pm.get(name, name), [ft(a) for a in args], map_body(body, ft, fp)] for name, args, body in clauses]
+    q2 = [[pm.get(name, name), [ft(a) for a in args]] for name, args in queries]
+    return dict(prog, clauses=cl2, queries=q2)
+
+def adversarial_program(rng, prog):
+    """prog with adversarial identifiers (see above); same shape, same queries (query variables Q<i> are the harness's own)"""
+    r = rng.random()
+    p = dict(prog)
+    if r < 0.85:
+        p['clauses'] = adversarial_variables(rng, p['clauses'])
+    if r > 0.6:
+        p = adversarial_symbols(rng, p)
+    return p
+
+def _has_cut_construct(body):
+    """does body contain a \\+ or an if-then(-else) whose goal / condition has a cut of its own?"""
+    k = body[0]
+    if k == 'not':
+        return has_opaque_cut(body[1], True) or _has_cut_construct(body[1])
+    if k == 'if':
+        return has_opaque_cut(body[1], True) or _has_cut_construct(body[1]) or _has_cut_construct(body[2])
+    if k in ('and', 'or'):
+        return _has_cut_construct(body[1]) or _has_cut_construct(body[2])
+    return False
+
+def has_dup_continuation(body, local_cut=False, cont=None):
+    """is there a disjunction / if-then(-else) that is followed by a non-trivial goal in a conjunction (so that compile_body compiles
+    the continuation once per alternative)?  With local_cut: ... and the continuation contains a construct whose condition has a cut"""
+    k = body[0]
+    if k == 'and':
+        rest = body[2] if cont is None else ['and', body[2], cont]
+        return has_dup_continuation(body[1], local_cut, rest) or has_dup_continuation(body[2], local_cut, cont)
+    if k in ('or', 'if'):
+        if cont is not None and (_has_cut_construct(cont) if local_cut else bool(constructs(cont) & {'or', 'if', 'not', 'cut', 'call'})):
+            return True
+        return has_dup_continuation(body[1], local_cut, cont if k == 'or' else None) or has_dup_continuation(body[2], local_cut, cont)
+    if k == 'not':
+        return has_dup_continuation(body[1], local_cut, None)
+    return False
+
+def gen_anon_program(rng):
+    """programs about `_`: "every `_` is a distinct variable".  Facts whose arguments are pairwise different atoms (d2, d3) or equal
+    (s2); rules whose heads and goals are full of `_` next to a few named variables, so that an answer exists only if every `_` is a
+    variable of its own (two `_` that were one variable, or a `_` that was one of the named variables, could not take the different
+    arguments of a fact) and only if every named variable is one variable (otherwise there are more answers).  The named variables
+    usually get adversarial names afterwards (adversarial_variables): a collision of names is the only way in which a compiler can
+    confuse a `_` with a variable of the source."""
+    atoms = ['a', 'b', 'c', 'd']
+    clauses = []
+    for _ in range(rng.randrange(2, 4)):
+        x, y = rng.sample(atoms, 2); clauses.append(['d2', [A(x), A(y)], ['true']])
+    for _ in range(rng.randrange(1, 3)):
+        x, y, z = rng.sample(atoms, 3); clauses.append(['d3', [A(x), A(y), A(z)], ['true']])
+    for x in rng.sample(atoms, 2):
+        clauses.append(['s2', [A(x), A(x)], ['true']])
+    clauses.append(['any', [V('_')], ['true']])
+    callees = [('d2', 2), ('d2', 2), ('d3', 3), ('s2', 2), ('any', 1)]
+    nr = rng.randrange(2, 5)
+    rules = []
+    for i in range(nr):
+        ar = rng.choice([1, 2, 2, 3])
+        named = rng.sample(VARS, rng.randrange(1, 4))
+        def arg(p_anon, p_named, simple=False):
+            q = rng.random()
+            if q < p_anon: return V('_')
+            if q < p_anon + p_named: return V(rng.choice(named))
+            if q < p_anon + p_named + 0.08 and not simple: return rng.choice([F('f', V('_'), V(rng.choice(named))), ['pair', V('_'), V('_')], ['list', [V('_'), V(rng.choice(named))]]])
+            return A(rng.choice(atoms))
+        head = [arg(0.35, 0.5) for _ in range(ar)]
+        goals = []
+        for _ in range(rng.randrange(1, 4)):
+            name, car = rng.choice(callees + [('r%d' % j, a) for j, a in rules])
+            # structures only as arguments of the fact predicates: no goal can build a cyclic term
+            goals.append(['call', name, [arg(0.5, 0.38, simple=name.startswith('r')) for _ in range(car)]])
+        if rng.random() < 0.3:
+            goals.append(['call', rng.choice(['=', '\\=']), [arg(0.4, 0.5, True), arg(0.3, 0.5, True)]])
+        clauses.append(['r%d' % i, head, _conj(goals)])
+        rules.append((i, ar))
+    # rules first or facts first (the number of a `_` in the whole text differs)
+    if rng.random() < 0.5:
+        facts = [c for c in clauses if not c[0].startswith('r')]
+        clauses = [c for c in clauses if c[0].startswith('r')] + facts
+    queries = []
+    for i, ar in rules:
+        queries.append(['r%d' % i, [V('Q%d' % j) for j in range(ar)]])
+        queries.append(['r%d' % i, [rng.choice([V('Q0'), V('Q1'), A(rng.choice(atoms)), F('f', V('Q0'), A(rng.choice(atoms)))]) for j in range(ar)]])
+    r = rng.random()
+    if r < 0.75:
+        clauses = adversarial_variables(rng, clauses, p_clause=1.0, p_var=0.8, p_anon=0.0)
     return {'clauses': clauses, 'queries': queries}
